@@ -519,7 +519,11 @@ func (s *Server) sendStreamingResults(c *streamClient) {
 
 		// s.processSubscription will send a sync marker, handle it separately.
 		if _, ok := item.(syncMarker); ok {
-			if err = c.stream.Send(subscribeSync); err != nil {
+			// The send timeout covers the sync response like any other send.
+			t.Reset(s.o.timeout)
+			err = c.stream.Send(subscribeSync)
+			t.Stop()
+			if err != nil {
 				c.errC <- err
 				return
 			}
